@@ -100,6 +100,8 @@ def check_case(case):
     else:
         parser = impl.strict_parser_for_encoder(encname, lexer_fn=f)
     r = impl.load_outcome(parser, text)
+    if r[0] == "spin":
+        impl.WATCHDOG_S = min(impl.WATCHDOG_S, 3.0)     # it does hang: later cases of this shard wait less
     if r[0] != "ok":
         out.append({"case": case, "diagnosis": "output-does-not-load:%s->%s" % (encname, reader),
                     "detail": "text %r: %s" % (text[:300], (r[1] + ": " + str(r[2])[:120]) if len(r) > 2 else r[0])})
